@@ -1,0 +1,11 @@
+//go:build verif
+
+package meta
+
+import clientv3 "go.etcd.io/etcd/client/v3"
+
+// NewEtcdReplicateStoreWithClient exists only in builds with the verif tag: the
+// shipped constructor minus the dial, for simulation harnesses.
+func NewEtcdReplicateStoreWithClient(client *clientv3.Client, rootPath string) *EtcdReplicateStore {
+	return &EtcdReplicateStore{client: client, rootPath: rootPath}
+}
